@@ -3,7 +3,9 @@
    `run` is what the interpreter model holds after its n-th step (C03). *)
 From Coq Require Import List ZArith String Bool Arith Lia.
 Import ListNotations.
-From Dagrt Require Import Lang LangCheck LangProofs Builder Sched FortranTarget.
+From Dagrt Require Import Lang LangCheck LangProofs Builder Sched BuilderProofs FortranTarget.
+Open Scope string_scope.
+Open Scope list_scope.
 Open Scope Z_scope.
 
 (* ---------- small facts ---------- *)
@@ -1010,4 +1012,45 @@ Example ex_runs : forall n, (n <= 5)%nat ->
   defined_pair t i && agree_on ex_univ t i = true.
 Proof.
   intros n Hn. do 6 (destruct n as [|n]; [vm_compute; reflexivity|]). lia.
+Qed.
+
+(* ---------- the interpreter's schedule: use of C02 ----------
+   `isteps` runs the statements of a phase in program order.  The real interpreter runs them in
+   the order its controller picks, which respects the recorded dependencies (C04).  For the
+   phases of a supported builder program every such order gives the same events, variables and
+   stop reason as program order: BuilderProofs.all_schedules (C02), whose side condition
+   loopvars_ok follows from `supported` and from the fact that a step starts with persistent
+   variables only. *)
+Lemma build_prog_phase lsr lbr is_state tok : forall bl P ph,
+  build_prog lsr lbr is_state tok bl = Some P -> In ph P ->
+  exists calls b, build lsr lbr is_state tok calls = BOk b /\ fp_stmts ph = b_stmts b.
+Proof.
+  induction bl as [|bp bl IH]; intros P ph Hb Hin; cbn [build_prog] in Hb.
+  - injection Hb as <-. destruct Hin.
+  - destruct (build lsr lbr is_state tok (bp_calls bp)) as [b| | |] eqn:Eb; try discriminate.
+    destruct (build_prog lsr lbr is_state tok bl) as [P'|] eqn:EP; [|discriminate].
+    injection Hb as <-. destruct Hin as [<-|Hin].
+    + exists (bp_calls bp), b. split; [exact Eb|reflexivity].
+    + eapply IH; eauto.
+Qed.
+
+Theorem step_any_schedule F g (is_state persistent : var -> bool) tok bl P ph s sched :
+  (forall y, is_state y = persistent y || is_ret y) ->
+  build_prog true true is_state tok bl = Some P -> supported is_state P = true -> In ph P ->
+  (forall y, persistent y = false -> s y = None) ->
+  Permutation.Permutation (seq 0 (List.length (fp_stmts ph))) sched ->
+  BuilderProofs.respects (fp_stmts ph) sched ->
+  req (run_ids F g (fp_stmts ph) sched (RRun s [])) (run_list F g (fp_stmts ph) (RRun s [])).
+Proof.
+  intros Hsplit Hb HS Hin Hs Hperm Hresp.
+  destruct (build_prog_phase true true is_state tok bl P ph Hb Hin) as (calls & b & Hbuild & E).
+  rewrite E in *. rewrite <- (BuilderProofs.run_ids_seq F g (b_stmts b) (RRun s [])).
+  eapply BuilderProofs.all_schedules; eauto.
+  intros a y Ha Hy. rewrite <- E in Ha.
+  destruct (supported_facts is_state P HS ph a Hin Ha) as [Hf Hlv]. split.
+  - apply Hs. destruct (sf_local _ _ _ Hf y Hy) as [A _]. rewrite Hsplit in A.
+    apply orb_false_iff in A. apply A.
+  - intros c Hc Hw. rewrite <- E in Hc.
+    destruct (supported_facts is_state P HS ph c Hin Hc) as [Hfc _].
+    destruct (sf_writes _ _ _ Hfc y Hw) as [_ Hn]. apply Hn, Hlv, Hy.
 Qed.
